@@ -541,10 +541,13 @@ Array<int> String::chars() const
 
 void String::assign(const char* b, int n)
 {
-	resize(n, false);
+	// b may point into this string (s = *s + k): then n <= _len and the buffer stays where it is, but the
+	// terminator must not be written before the (overlapping) copy
+	resize(n, false, false);
 	char* s = str();
-	memcpy(s, b, _len);
-	s[_len] = '\0';
+	memmove(s, b, n);
+	s[n] = '\0';
+	_len = n;
 }
 
 String String::concat(const char* b, int n) const
